@@ -2,6 +2,7 @@ import Driver.Common
 import TxdbusModel.Auth.ServerLines
 import TxdbusModel.Auth.Mechs
 import TxdbusModel.Auth.SpecServer
+import TxdbusModel.Auth.ServerMulti
 /-!
 Driver for property C06.  One case per line, one answer per line.
 
@@ -12,6 +13,14 @@ Driver for property C06.  One case per line, one answer per line.
                                         dirs   `-` or home:a|g|b joined by `,`
                                         files  `-` or home:ID.TIME.COOKIE/ID.TIME.COOKIE.. joined by `,` (empty file: `home:`)
                                         sha    `-` or in:out joined by `,` (hex)
+  N <guid> <scripts> <event>*         several connections of one bus, scripted mechanisms (Auth/ServerMulti.lean); scripts =
+                                        one script per connection (as in S) joined by `/`; events `c` (connect),
+                                        `r<k>:<hex>` (read on connection k), `l<k>` (connection k lost);
+                                        answer: the S answer of every connection joined by ` | `
+  M <guid> <env> <event>*             the same with the real mechanisms on ONE environment (creds of env ignored); events
+                                        `c:<creds>` (connect; the peer's uid as SO_PEERCRED gives it, `-` = none),
+                                        `r<k>:<hex>`, `l<k>`, `t<n>` (the clock advances n seconds);
+                                        answer: the R answer of every connection joined by ` | `, then ` || files= dirs= rnd=`
   B <op> <hex>                        bytes helpers
   P <offered,..> <limit> <phase> <rejects> <line> <verdict>   one step of the spec table
 
@@ -113,6 +122,62 @@ def runReal (ws : List String) : String :=
     | _ => "bad-env"
   | _ => "bad-input"
 
+/-! several connections of one bus -/
+
+open Txdbus.AuthServer.Multi in
+def runMultiScripted (ws : List String) : String :=
+  match ws with
+  | guid :: scripts :: evs =>
+    let S := scripted (Txdbus.Gen.ServerAuth.mechTable.map (·.1))
+    let scr : List (List Outcome) := (scripts.splitOn "/").map parseScript
+    let g0 : Nat → ScriptWorld := fun k => ⟨scr.getD k [], 0, 0⟩
+    let b0 : Bus (Nat → ScriptWorld) ScriptWorld Unit := Bus.init g0
+    let b := evs.foldl (fun b ev =>
+      if ev == "c" then Multi.step S scriptedView (unhx guid) b .connect
+      else if ev.startsWith "r" then
+        match ((ev.drop 1).toString).splitOn ":" with
+        | [k, d] => Multi.step S scriptedView (unhx guid) b (.read k.toNat! (unhx d))
+        | _ => b
+      else if ev.startsWith "l" then Multi.step S scriptedView (unhx guid) b (.lose ((ev.drop 1).toString).toNat!)
+      else b) b0
+    let outs := (List.range b.conns.length).zip b.conns |>.map fun (k, c) =>
+      let w := b.global k
+      protoOut c.proto ++ s!" cancels={w.cancels} steps={w.steps}"
+    if outs.isEmpty then "-" else " | ".intercalate outs
+  | _ => "bad-input"
+
+open Txdbus.AuthServer.Multi in
+def runMultiReal (ws : List String) : String :=
+  match ws with
+  | guid :: env :: evs =>
+    match env.splitOn ";" with
+    | [_, passwd, dirs, files, now, ctx, sha] =>
+      let frac := now.endsWith "+"
+      let nowS := if frac then (now.dropEnd 1).toString else now
+      let cfg : EnvCfg := ⟨none, parsePasswd passwd, nowS.toNat!, frac, rndFn, parseSha sha, unhx ctx⟩
+      let w : RealWorld := ⟨cfg, parseDirs dirs, parseFiles files, 0⟩
+      let b0 : Bus RealBus RealWorld Inst := Bus.init ⟨w, fun _ => none⟩
+      let b := evs.foldl (fun b ev =>
+        if ev.startsWith "c:" then
+          let cs := (ev.drop 2).toString
+          let c : Option Int := if cs == "-" then none else some cs.toInt!
+          let n := b.conns.length
+          let b1 := Multi.step real realView (unhx guid) b
+            (.env fun g => { g with creds := fun j => if j = n then c else g.creds j })
+          Multi.step real realView (unhx guid) b1 .connect
+        else if ev.startsWith "r" then
+          match ((ev.drop 1).toString).splitOn ":" with
+          | [k, d] => Multi.step real realView (unhx guid) b (.read k.toNat! (unhx d))
+          | _ => b
+        else if ev.startsWith "l" then Multi.step real realView (unhx guid) b (.lose ((ev.drop 1).toString).toNat!)
+        else if ev.startsWith "t" then Multi.step real realView (unhx guid) b (.env (tick ((ev.drop 1).toString).toNat!))
+        else b) b0
+      let outs := b.conns.map fun c => protoOut c.proto
+      (if outs.isEmpty then "-" else " | ".intercalate outs) ++
+        s!" || files={filesOut b.global.world} dirs={dirsOut b.global.world} rnd={b.global.world.rndCalls}"
+    | _ => "bad-env"
+  | _ => "bad-input"
+
 def runBytes (ws : List String) : String :=
   match ws with
   | [op, h] =>
@@ -158,6 +223,8 @@ def step (_ : Unit) (line : String) : Unit × String :=
   match Driver.words line with
   | "S" :: ws => ((), runScripted ws)
   | "R" :: ws => ((), runReal ws)
+  | "N" :: ws => ((), runMultiScripted ws)
+  | "M" :: ws => ((), runMultiReal ws)
   | "B" :: ws => ((), runBytes ws)
   | "P" :: ws => ((), runSpec ws)
   | _ => ((), "bad-input")
